@@ -54,21 +54,23 @@ type c04Result struct {
 	Stack   string `json:"stack,omitempty"`
 }
 
-const cogModule = "github.com/grafana/cog/"
+const c04CogModule = "github.com/grafana/cog/"
 
 var (
-	reHex    = regexp.MustCompile(`0x[0-9a-fA-F]+`)
-	reNum    = regexp.MustCompile(`[0-9]+`)
-	reQuoted = regexp.MustCompile(`"[^"]*"|'[^']*'`)
-	reFnArgs = regexp.MustCompile(`\((\{|0x|\.\.\.|\)$)`)
+	c04ReHex    = regexp.MustCompile(`0x[0-9a-fA-F]+`)
+	c04ReNum    = regexp.MustCompile(`[0-9]+`)
+	c04ReQuoted = regexp.MustCompile(`"[^"]*"|'[^']*'`)
+	c04RePath   = regexp.MustCompile(`\S*/\S*`)
+	c04ReGen    = regexp.MustCompile(`\[[^\]]*\]`)
 )
 
 // c04MsgClass maps a panic message to its class: numbers, addresses and quoted payloads removed.
 func c04MsgClass(msg string) string {
 	m := strings.SplitN(msg, "\n", 2)[0]
-	m = reHex.ReplaceAllString(m, "X")
-	m = reQuoted.ReplaceAllString(m, "Q")
-	m = reNum.ReplaceAllString(m, "N")
+	m = c04ReHex.ReplaceAllString(m, "X")
+	m = c04ReQuoted.ReplaceAllString(m, "Q")
+	m = c04RePath.ReplaceAllString(m, "P")
+	m = c04ReNum.ReplaceAllString(m, "N")
 	if len(m) > 140 {
 		m = m[:140]
 	}
@@ -79,6 +81,9 @@ func c04MsgClass(msg string) string {
 // of the first frame below the innermost panic() that lies in the cog module and not in the harness.
 func c04TopCogFrame(stack string) string {
 	lines := strings.Split(stack, "\n")
+	if strings.Contains(stack, "stack overflow") || strings.Contains(stack, "goroutine stack exceeds") {
+		return c04RecursionRoot(lines)
+	}
 	start := 0
 	for i, l := range lines {
 		if strings.HasPrefix(l, "panic(") || strings.HasPrefix(l, "runtime.sigpanic") {
@@ -86,26 +91,54 @@ func c04TopCogFrame(stack string) string {
 		}
 	}
 	for _, l := range lines[start:] {
-		if !strings.HasPrefix(l, cogModule) {
+		if !strings.HasPrefix(l, c04CogModule) {
 			continue
 		}
 		if strings.Contains(l, "/cmd/verifharness") {
 			continue
 		}
-		fn := l
-		// drop the argument list "(0x…, …)" / "(...)" at the end
-		if i := strings.LastIndex(fn, "("); i > 0 && !strings.HasSuffix(fn[:i], ".") {
-			if j := strings.LastIndex(fn, ")"); j == len(fn)-1 {
-				// keep receiver parentheses such as (*generator): only cut the LAST group
-				fn = fn[:i]
-			}
-		}
-		fn = strings.TrimPrefix(fn, cogModule)
-		// generic instantiation markers
-		fn = regexp.MustCompile(`\[[^\]]*\]`).ReplaceAllString(fn, "")
-		return fn
+		return c04FrameName(l)
 	}
 	return "?"
+}
+
+// "github.com/grafana/cog/internal/openapi.(*generator).walkEnum(0xc0…, …)" -> "internal/openapi.(*generator).walkEnum"
+func c04FrameName(l string) string {
+	fn := l
+	if strings.HasSuffix(fn, ")") {
+		if i := strings.LastIndex(fn, "("); i > 0 {
+			fn = fn[:i] // the argument list is the last parenthesised group
+		}
+	}
+	fn = strings.TrimPrefix(fn, c04CogModule)
+	return c04ReGen.ReplaceAllString(fn, "")
+}
+
+// for a stack overflow the top of the stack is wherever the limit was hit; the class is the
+// recursive function: among the cog functions seen at least three times, one named *esolve* if
+// any (the alias-cycle recursions), otherwise the alphabetically first
+func c04RecursionRoot(lines []string) string {
+	count := map[string]int{}
+	for _, l := range lines {
+		if strings.HasPrefix(l, c04CogModule) && !strings.Contains(l, "/cmd/verifharness") {
+			count[c04FrameName(l)]++
+		}
+	}
+	best := ""
+	for fn, n := range count {
+		if n < 3 {
+			continue
+		}
+		better := best == "" || (strings.Contains(fn, "esolve") && !strings.Contains(best, "esolve")) ||
+			(strings.Contains(fn, "esolve") == strings.Contains(best, "esolve") && fn < best)
+		if better {
+			best = fn
+		}
+	}
+	if best == "" {
+		return "?"
+	}
+	return "recursion:" + best
 }
 
 func c04Recovered(res *c04Result, rec any, stage string) {
